@@ -85,7 +85,8 @@ def check_case(case):
   prods = {}
   for name, api in zip(PRODUCERS, case['producer_apis']):
     prods[name] = G.build({'pos': [], 'dflt': ['v'], 'varargs': False, 'kwonly': [], 'kwdflt': [],
-                           'varkw': False, 'kind': 'function', 'api': api, 'name': name}, gin)
+                           'varkw': False, 'kind': 'function', 'api': api, 'name': name,
+                           'mutate_scope': bool(case.get('mutate_scope'))}, gin)
   pmodel = {name: {} for name in PRODUCERS}
   lines = []
   for name, scope, value in case['producer_bindings']:
@@ -297,5 +298,6 @@ def strategy(draw):
       'consumer_bindings': [[p, draw(_tree(3))] for p in params],
       'ambient': draw(st.sampled_from([[], ['s'], ['x'], ['s', 't'], ['t']])),
       'parse_scope': draw(st.sampled_from(['', '', 'setup', 's', 'x/y'])),
+      'mutate_scope': draw(st.booleans()),
       'calls': calls,
   }
